@@ -13,22 +13,26 @@ import itertools, pickle, random
 
 MANIFEST = {
     'text': 'Coq theorems over the routing model (Routing.v), for ALL m, thresholds t\' < m, receiver lists and graphs: '
-            'transfer (bipartite / dict / pair-list forms): i sends to j iff j expects i iff (i,j) is a designated arc, each '
-            'party returns its designated senders\' objects in sender order, a party without sender returns []; output: every '
-            'receive has its send and vice versa, a receiver waits for t\' distinct other parties, and (abstract field, via the '
-            'C12 interpolation theorem) recombines exactly the shared value from its own + t\' predecessor shares whenever the '
-            'sharing has degree <= t\', so all receivers agree; random_split dealing followed by output opens to the input for '
-            'any coefficient tape. The two call forms where the property is false of the code (int sender with restricted '
-            'receivers; dict graph omitting a node) are proved as *_refuted with 3-party witnesses and replayed on the '
-            'implementation (finding F-C07). Tied every run: simulator over all sender x receiver subsets, all dict/pair graphs '
-            '(m<=3), all receiver subsets x thresholds t..2t, all sender subsets for input; message logs and recombined values '
-            'compared exactly with the model by vm_compute.',
-    'note': 'Trusted: Coq kernel + vm_compute; the hand-written routing model (tied by exact comparison of per-party '
-            'send/receive sequences, results and Z_p recombination values on every run); the simulator (fake transports, '
-            'real MessageExchanger/Runtime). Pickle is an opaque token in the model (round trip on the payload pool is '
-            'checked by the harness only). Secure floats / group elements / GF(2^k): implementation-level oracle only (their '
-            '_input/_output plumbing is not modelled). Lists with duplicate party indices are outside the theorems that need '
-            'NoDup and are not generated. m <= 4 exhaustive for subsets (m <= 3 for arbitrary graphs), m = 5..7 sampled.',
+            'transfer (bipartite / dict / pair-list forms, every party incl. parties that are not a key of a dict graph): '
+            'i sends to j iff j expects i iff (i,j) is a designated arc, each party returns its designated senders\' objects '
+            'in sender order, a party without sender returns [] (None for an int sender), a party that is not a dict key '
+            'sends nothing; output: every receive has its send and vice versa, a receiver waits for t\' distinct other '
+            'parties, and (abstract field, via the C12 interpolation theorem) recombines exactly the shared value from its '
+            'own + t\' predecessor shares whenever the sharing has degree <= t\', so all receivers agree; random_split '
+            'dealing followed by output opens to the input for any coefficient tape. Tied every run: simulator over all '
+            'sender x receiver subsets (incl. int senders with restricted receivers), all dict graphs (full and with nodes '
+            'omitted) and pair graphs (m<=3), all receiver subsets x thresholds t..2t, all sender subsets for input; '
+            'message logs, results and recombined values compared exactly with the model by vm_compute.',
+    'note': 'Trusted: Coq kernel + vm_compute; the hand-written routing model of the repaired transfer code (repo commits '
+            '5a43ef0, cb049a3; findings F-C07-1/2 fixed), tied by exact comparison of per-party send/receive sequences, '
+            'results and Z_p recombination values on every run; the simulator (fake transports, real MessageExchanger/'
+            'Runtime). Pickle is an opaque token in the model (round trip on the payload pool is checked by the harness '
+            'only). Secure floats / group elements / GF(2^k): implementation-level oracle only (their _input/_output '
+            'plumbing is not modelled); open findings there: F-C07-3 (secure float output with empty receiver list raises '
+            'ValueError; run alone in its own simulator), F-C07-4 (list of tuple-share group elements: non-receiver gets r*n '
+            'Nones). Lists with duplicate party indices are outside the theorems that need NoDup and are not generated. '
+            'm <= 4 exhaustive for subsets (m <= 3 for arbitrary graphs), m = 5..7 sampled; recombined values compared for '
+            'a random 30% of numeric outputs in the quick tier.',
     'technique': 'Coq proof (lia over Z mod, Lagrange interpolation) + multi-party simulator correspondence by vm_compute',
 }
 
@@ -401,24 +405,14 @@ def transfer_coq(op, m):
 
 
 def is_risky(op, m):
-    """Call forms for which DESIGN §7 F-C07 predicts an exception (run in their own simulator)."""
-    if op['op'] == 'transfer':
-        if op['form'] == 'bip' and op.get('senders') is not None and op['senders'][0] == 'int':
-            return set(arglist(op.get('receivers'), m)) != set(range(m))
-        if op['form'] == 'dict':
-            return {a for a, b in op['items']} != set(range(m))
+    """Call forms that kill the calling coroutine (open finding F-C07-3): run in their own simulator."""
     if op['op'] == 'output' and op['stype'] == 'secflt' and 'receivers' in op:
         return len(arglist(op['receivers'], m)) == 0
     return False
 
 
 def risky_sig(op, m, run):
-    if op['op'] == 'transfer' and op['form'] == 'bip':
-        cls, exc = 'transfer int-sender non-receiver', 'IndexError'
-    elif op['op'] == 'transfer':
-        cls, exc = 'transfer dict-graph missing-key', 'KeyError'
-    else:
-        cls, exc = 'output secflt empty-receivers', 'ValueError'
+    cls, exc = 'output secflt empty-receivers', 'ValueError'
     seen = sorted(set(run['excs']))
     if seen == [exc]:
         return '%s %s m=%d' % (cls, exc, m)
@@ -495,7 +489,7 @@ def gen_graph_ops(m, rng, exhaustive, nsample):
                 b = ['tuple', adj[i]]
             items.append([i, b])
         ops.append({'op': 'transfer', 'form': 'dict', 'items': items})
-        # the documented short form: nodes without outgoing arcs omitted
+        # the documented short form: nodes without outgoing arcs omitted (ordinary since repo commit 5a43ef0)
         short = [it for it in items if arglist(it[1], m)]
         if len(short) < m:
             ops.append({'op': 'transfer', 'form': 'dict', 'items': short})
@@ -598,7 +592,7 @@ def check_batch(ctx, m, t, no_prss, ops, run, exprs, meta, tag):
                     good = (r == want and type(r) is type(want))
                 else:
                     want = None
-                    good = r is None or r == []
+                    good = r is None
                 if not good:
                     bad.append({'party': j, 'got': repr(r)[:200], 'want': repr(want)[:200]})
             if bad:
@@ -712,12 +706,9 @@ def compare_model(ctx, res, meta):
             continue
         diffs = []
         if kind == 'transfer':
+            sender_int = op['form'] == 'bip' and op.get('senders') is not None and op['senders'][0] == 'int'
             for pid in range(m):
-                msends, mrecvs, mres = r[pid]
-                ms = msends[1] if isinstance(msends, tuple) and msends[0] == 'Some' else 'KeyErr'
-                if mres in ('KeyErr', 'IndexErr'):
-                    diffs.append((pid, 'model predicts %s but the party completed' % mres, repr(recs[pid]['res'])[:100]))
-                    continue
+                ms, mrecvs, mres = r[pid]
                 log = recs[pid]['log']
                 kinds = [kd for kd, _, _ in log]
                 if kinds != sorted(kinds, key=lambda x: x != 'send'):
@@ -726,10 +717,13 @@ def compare_model(ctx, res, meta):
                     diffs.append((pid, 'sends', sends_of(recs[pid]), ms))
                 if recvs_of(recs[pid]) != mrecvs:
                     diffs.append((pid, 'recvs', recvs_of(recs[pid]), mrecvs))
-                ids = mres[1]
-                want = [payload(k, i) for i in ids] if isinstance(ids, list) else payload(k, ids)
-                if recs[pid]['res'] != want:
-                    diffs.append((pid, 'result', repr(recs[pid]['res'])[:100], ids))
+                if sender_int:     # option: None | Some i
+                    want = None if mres is None else payload(k, mres[1])
+                else:
+                    want = [payload(k, i) for i in mres]
+                got = recs[pid]['res']
+                if got != want or (want is None) != (got is None):
+                    diffs.append((pid, 'result', repr(got)[:100], mres))
         elif kind == 'input':
             for pid in range(m):
                 ms, mr = r[pid]
@@ -785,10 +779,6 @@ def run_risky(ctx, m, t, op, seed, exprs, meta):
     sig = risky_sig(op, m, run)
     ctx.violation(sig, {'config': cfg, 'op': describe(op), 'per_party': outcome, 'exceptions': run['excs'][:6]})
     ctx.case({'cfg': cfg, 'op': op, 'risky': True}, nontrivial=True, kind='predicted-failure/' + op['op'])
-    # correspondence for the failing form: the model must predict an error at exactly the parties that died
-    if op['op'] == 'transfer':
-        exprs.append(transfer_coq(op, m))
-        meta.append(('risky', cfg, op, [bool(rs and rs[0].get('done')) for rs in run['recs']], run['excs']))
     return 'failed'
 
 
@@ -831,6 +821,9 @@ def run(ctx):
                 extra_in = gen_input_ops(m, rng, m <= 3, 3, ['secflt', 'symgrp'])
                 extra_out = gen_output_ops(m, t, rng, m <= 3, 3, ['secflt', 'symgrp', 'qr'])
                 ops += [o for o in extra_in if o.get('n') != 0] + extra_out
+        if m >= 3:   # the two formerly failing call forms of F-C07-1/2, now ordinary cases
+            ops.append({'op': 'transfer', 'form': 'bip', 'senders': ['int', 0], 'receivers': ['list', [1]]})
+            ops.append({'op': 'transfer', 'form': 'dict', 'items': [[0, ['list', [1]]]]})
         rng.shuffle(ops)
         safe = [o for o in ops if not is_risky(o, m)]
         risky += [(m, t, o) for o in ops if is_risky(o, m)]
@@ -849,48 +842,25 @@ def run(ctx):
             continue
         cls = (o['op'], o.get('form', o.get('stype')), m)
         by_class.setdefault(cls, []).append((m, t, o))
-    # canonical witnesses of DESIGN §7 first
-    chosen = [(3, 1, {'op': 'transfer', 'form': 'bip', 'senders': ['int', 0], 'receivers': ['list', [1]]}),
-              (3, 1, {'op': 'transfer', 'form': 'dict', 'items': [[0, ['list', [1]]]]}),
-              (3, 1, {'op': 'output', 'stype': 'secflt', 'receivers': ['list', []], 'threshold': None, 'n': None,
+    # canonical witness first
+    chosen = [(3, 1, {'op': 'output', 'stype': 'secflt', 'receivers': ['list', []], 'threshold': None, 'n': None,
                       'src': 'input', 'dealer': 0})]
     per = ctx.n(3, 12)
     for cls in sorted(by_class, key=str):
         chosen += by_class[cls][:per]
     outcomes = {'failed': 0, 'completed': 0}
-    rmeta_start = len(meta)
     for i, (m, t, o) in enumerate(chosen):
         outcomes[run_risky(ctx, m, t, o, ctx.seed * 17 + i, exprs, meta)] += 1
     ctx.log('predicted-failure call forms: %d run alone, %s' % (len(chosen), outcomes))
-    ctx.extra['predicted_failure_forms'] = {'run': len(chosen), **outcomes, 'not_run_this_tier': len(risky) - len(chosen) + 3}
+    ctx.extra['predicted_failure_forms'] = {'run': len(chosen), **outcomes, 'not_run_this_tier': max(len(risky) - len(chosen) + 1, 0)}
     if outcomes['completed'] and not outcomes['failed']:
-        ctx.notes.append('all predicted-failure call forms completed: implementation repaired; the model theorems '
-                         '*_refuted / *_error describe the unrepaired code')
+        ctx.notes.append('all predicted-failure call forms completed: implementation repaired')
     ctx.log('%d simulator cases; evaluating %d model expressions in Coq' % (ctx.evaluations, len(exprs)))
     if ok:
         res = ctx.coq_eval(['MPyC.Routing'], exprs, chunk=250)
-        normal = [(r, mt) for r, mt in zip(res, meta) if mt[0] != 'risky']
-        mism = compare_model(ctx, [r for r, _ in normal], [mt for _, mt in normal])
-        nr = 0
-        for r, mt in zip(res, meta):
-            if mt[0] != 'risky':
-                continue
-            _, cfg, op, done, excs = mt
-            nr += 1
-            if isinstance(r, tuple) and r and r[0] == 'ERROR':
-                mism += 1
-                ctx.broken.append({'kind': 'correspondence', 'what': 'coq evaluation failed', 'op': op, 'detail': r[1]})
-                continue
-            # the model predicts an error exactly at the parties whose coroutine died
-            model_err = [row[2] in ('KeyErr', 'IndexErr') for row in r]
-            died = [not d for d in done]
-            # a party may also be stuck waiting for a dead sender; a dead party is always a model error
-            if any(me and not dd for me, dd in zip(model_err, died)) or sum(model_err) != len(excs):
-                mism += 1
-                ctx.broken.append({'kind': 'correspondence', 'what': 'predicted failure', 'op': op,
-                                   'model_err': model_err, 'died': died, 'excs': excs})
+        mism = compare_model(ctx, res, meta)
         ctx.extra['traces_validated_against_impl'] = len(exprs) - mism
-        ctx.log('model/implementation disagreements: %d (of %d, incl. %d predicted-failure forms)' % (mism, len(exprs), nr))
+        ctx.log('model/implementation disagreements: %d (of %d)' % (mism, len(exprs)))
     ctx.extra['simulator_runs'] = nbatch + len(chosen)
     ctx.notes.append('subsets exhaustive for (m,t) in %s; sampled for %s' % (
         [c[:2] for c in configs], [c[:2] for c in sampled]))
